@@ -4,17 +4,24 @@
   Request: `form <id> <lhs> <rhs>` (or `form <id> <item>*` for Sum/Product), the id layout is the one
   documented in harness/src/c10.rs:
       id = K*1_000_000 + OP*10_000 + SHAPE*1_000 + STY*10 + VAR
-  Model column: for every scalar form of `+ - * / %` (big ∘ s, s ∘ big, big ∘= s, `scalar %= BigUint`,
-  and the scalar items of Sum/Product) the DIGIT-level model of NB.Model.ScalarD (`NB.SD.uScalarForm`,
-  `NB.SD.iScalarForm`, `NB.SD.dRemAssignScalar`: promotion cast, then the leaf impl on digit vectors through the
-  digit-level add/sub/mul/div/convert/cmp models) — no size cap; shifts and powers use the value-level model of
-  NB.Model.Scalar; the pure big∘big forms use the canonical value-level operation.  Oracle column: the mathematical result on `Int`
+  Model column: EVERY form is computed by the DIGIT-level model of NB.Model.ScalarD on the limbs as received
+  (no size cap): the scalar forms of `+ - * / %` (big ∘ s, s ∘ big, big ∘= s, `scalar %= BigUint`) by
+  `NB.SD.uScalarForm`, `NB.SD.iScalarForm`, `NB.SD.dRemAssignScalar` (promotion cast, then the leaf impl on digit
+  vectors); the shift forms by `NB.SD.uShiftForm` / `NB.SD.iShiftForm` (C07's `biguintShl/biguintShr`,
+  `BigInt.shl/shlAssign/shr/shrAssign`: negative-amount panic, capacity overflow, `shr_round_down`); the Pow forms by
+  `NB.PowD.powPrim/powBig/bigintPow/bigintPowBig` with the operand form (val/ref × val/ref) of the id; the big ∘ big
+  forms and `checked_*` by `NB.SD.uBinForm/iBinForm/uCheckedForm/iCheckedForm` (C01 add/sub, C02 mul, C03 div/rem,
+  C07 and/or/xor); Sum / Product by the folds `NB.SD.uIterForm/iIterForm`.  NB.Props.C10D proves each of them equal
+  to the value-level form (`uShl`, `iShr`, `powPrim`, `uPowBig`, `uBin`, `iBin`, … of NB.Model.Scalar and of this
+  file, which stay as the intermediate layer) mapped through `ofNat` / `ofV`, panics included.
+  Oracle column: the mathematical result on `Int`
   (`+ - *`, `Int.tdiv/tmod`, two's-complement bit operations through a window of residues,
   shifts as `* 2^k` and floor division) or the documented panic class.
 -/
 import NB.Wire
 import NB.Model.Scalar
 import NB.Model.ScalarD
+import NB.Model.PowD
 import NB.Model.AsmParams
 namespace NB.Drv.C10
 open NB NB.Wire
@@ -75,6 +82,8 @@ inductive Res where
   | il (b : BigInt)
   | ou (o : Option Nat)
   | oi (o : Option VInt)
+  | oul (o : Option (List Nat))
+  | oil (o : Option BigInt)
 
 def showVInt (v : VInt) : String := showSign v.sign ++ showLimbs (ofNat v.mag)
 
@@ -85,13 +94,17 @@ def Res.show : Res → String
   | .il b => "ok " ++ showSign b.sign ++ showLimbs b.mag
   | .ou o => showOpt (fun n => showLimbs (ofNat n)) o
   | .oi o => showOpt showVInt o
+  | .oul o => showOpt showLimbs o
+  | .oil o => showOpt (fun b => showSign b.sign ++ showLimbs b.mag) o
 
 def showOut (r : Except Panic Res) : String :=
   match r with
   | .ok v => v.show
   | .error p => "panic " ++ p.toString
 
-/-! ### canonical value-level operations (model side, big∘big) -/
+/-! ### canonical VALUE-level big∘big operations: the intermediate layer of the refinement
+    (`NB.SD.uBinForm` / `NB.SD.iBinForm` are proved equal to them in NB.Props.C10D; the model column below
+    no longer calls them) -/
 
 def aopOf : Nat → Option AOp
   | 1 => some .add | 2 => some .sub | 3 => some .mul | 4 => some .div | 5 => some .rem
@@ -226,60 +239,68 @@ def uFormDigits (op : AOp) (pos : SPos) (t : STy) (la : List Nat) (s : Int) : Ex
 def iFormDigits (op : AOp) (pos : SPos) (t : STy) (a : BigInt) (s : Int) : Except Panic Res :=
   (SD.iScalarForm NB.Gen.P op pos t a s).map Res.il
 
+/-- the operand form of a Pow id: VAR 0 val∘val, 1 val∘ref, 2 ref∘val, 3 ref∘ref -/
+def powFormOf (var : Nat) : Pow.Form :=
+  match var with
+  | 0 => .vv | 1 => .vr | 2 => .rv | _ => .rr
+
+def liftUL (r : Except Panic (List Nat)) : Except Panic Res := r.map Res.ul
+def liftIL (r : Except Panic BigInt) : Except Panic Res := r.map Res.il
+
+def uItems : List Arg → Option (List (SD.Item (List Nat)))
+  | [] => some []
+  | .u _ l :: r => (uItems r).map (fun t => .big l :: t)
+  | .s t s :: r => (uItems r).map (fun tl => .sc t s :: tl)
+  | .i _ _ :: _ => none
+
+def iItems : List Arg → Option (List (SD.Item BigInt))
+  | [] => some []
+  | .i _ b :: r => (iItems r).map (fun t => .big b :: t)
+  | .s t s :: r => (iItems r).map (fun tl => .sc t s :: tl)
+  | .u _ _ :: _ => none
+
 def model (f : Form) (args : List Arg) : Option (Except Panic Res) :=
   match f.k, f.shape, args with
-  -- Sum / Product: folds of the `Add<T>` / `Mul<T>` forms (scalar items through the digit-level leaves)
-  | 1, 6, items =>
-    let step (acc : Except Panic Nat) (it : Arg) : Except Panic Nat :=
-      acc >>= fun a => match it with
-        | .u n _ => .ok (if f.op = 16 then a + n else a * n)
-        | .s t s => (SD.uScalarForm NB.Gen.P (if f.op = 16 then .add else .mul) .bigScalar t (ofNat a) s).map val
-        | .i _ _ => .error (.internal "arg")
-    some (liftU (items.foldl step (.ok (if f.op = 16 then 0 else 1))))
-  | 2, 6, items =>
-    let step (acc : Except Panic VInt) (it : Arg) : Except Panic VInt :=
-      acc >>= fun a => match it with
-        | .i x _ => .ok (if f.op = 16 then VInt.add a x else VInt.mul a x)
-        | .s t s =>
-          (SD.iScalarForm NB.Gen.P (if f.op = 16 then .add else .mul) .bigScalar t (SD.ofV a) s).map SD.toV
-        | .u _ _ => .error (.internal "arg")
-    some (liftI (items.foldl step (.ok (if f.op = 16 then VInt.zero else ⟨.plus, 1⟩))))
+  -- Sum / Product: digit-level folds of the `Add` / `Mul` forms
+  | 1, 6, items => (uItems items).map (fun its => liftUL (SD.uIterForm NB.Gen.P (f.op = 16) its))
+  | 2, 6, items => (iItems items).map (fun its => liftIL (SD.iIterForm NB.Gen.P (f.op = 16) its))
   -- scalar %= BigUint
   | 1, 5, [.s t s, .u _ la] =>
     some ((SD.dRemAssignScalar t s la).map (fun r => if t.signed then Res.i (VInt.ofInt r) else Res.u r.toNat))
   -- BigUint
-  | 1, _, [.u a _, .u b _] =>
-    if f.op = 11 then some (liftU (uPowBig a b))
-    else if f.op = 12 then some (.ok (.ou (some (a + b))))
-    else if f.op = 13 then
-      some (.ok (.ou (match cmpNat a b with | .lt => none | .eq => some 0 | .gt => some (a - b))))
-    else if f.op = 14 then some (.ok (.ou (some (a * b))))
-    else if f.op = 15 then some (.ok (.ou (if b = 0 then none else some (a / b))))
-    else some (liftU (uBin f.op a b))
-  | 1, _, [.u a la, .s t s] =>
-    if f.op = 9 then some (liftU (uShl a s))
-    else if f.op = 10 then some (liftU (uShr a s))
-    else if f.op = 11 then some (.ok (.u (powPrim a s.toNat)))
+  | 1, _, [.u _ la, .u _ lb] =>
+    if f.op = 11 then some (liftUL (PowD.powBig NB.Gen.P (powFormOf f.var) la lb))
+    else if 12 ≤ f.op ∧ f.op ≤ 15 then some ((SD.uCheckedForm NB.Gen.P (f.op - 11) la lb).map Res.oul)
+    else some (liftUL (SD.uBinForm NB.Gen.P f.op la lb))
+  | 1, _, [.u _ la, .s t s] =>
+    if f.op = 9 then some (liftUL (SD.uShiftForm true la s))
+    else if f.op = 10 then some (liftUL (SD.uShiftForm false la s))
+    else if f.op = 11 then some (liftUL (PowD.powPrim NB.Gen.P (powFormOf f.var) la s.toNat))
     else (aopOf f.op).map (fun op => uFormDigits op (posOf f.shape) t la s)
   | 1, 2, [.s t s, .u _ la] =>
     (aopOf f.op).map (fun op => uFormDigits op .scalarBig t la s)
   -- BigInt
-  | 2, _, [.i a _, .i b _] =>
-    if f.op = 12 then some (.ok (.oi (some (VInt.add a b))))
-    else if f.op = 13 then some (.ok (.oi (some (VInt.ofInt (a.val - b.val)))))
-    else if f.op = 14 then some (.ok (.oi (some (VInt.mul a b))))
-    else if f.op = 15 then
-      some (.ok (.oi (if b.mag = 0 then none else some (VInt.fromBiguint (a.sign.mul b.sign) (a.mag / b.mag)))))
-    else some (liftI (iBin f.op a b))
-  | 2, _, [.i a _, .u e _] => if f.op = 11 then some (liftI (iPowBig a e)) else none
-  | 2, _, [.i a ab, .s t s] =>
-    if f.op = 9 then some (liftI (if f.shape = 3 then iShlAssign a s else iShl a s))
-    else if f.op = 10 then some (liftI (if f.shape = 3 then iShrAssign a s else iShr a s))
-    else if f.op = 11 then some (.ok (.i (iPow a s.toNat)))
+  | 2, _, [.i _ ab, .i _ bb] =>
+    if 12 ≤ f.op ∧ f.op ≤ 15 then some ((SD.iCheckedForm NB.Gen.P (f.op - 11) ab bb).map Res.oil)
+    else some (liftIL (SD.iBinForm NB.Gen.P f.op ab bb))
+  | 2, _, [.i _ ab, .u _ le] =>
+    if f.op = 11 then some (liftIL (PowD.bigintPowBig NB.Gen.P (powFormOf f.var) ab le)) else none
+  | 2, _, [.i _ ab, .s t s] =>
+    if f.op = 9 then some (liftIL (SD.iShiftForm NB.Gen.P true (f.shape = 3) ab s))
+    else if f.op = 10 then some (liftIL (SD.iShiftForm NB.Gen.P false (f.shape = 3) ab s))
+    else if f.op = 11 then some (liftIL (PowD.bigintPow NB.Gen.P (powFormOf f.var) ab s.toNat))
     else (aopOf f.op).map (fun op => iFormDigits op (posOf f.shape) t ab s)
   | 2, 2, [.s t s, .i _ ab] =>
     (aopOf f.op).map (fun op => iFormDigits op .scalarBig t ab s)
   | _, _, _ => none
+
+/-- a left shift of a non-zero operand by 2^38 … 2^70 bits: the digit count fits `usize`, so the real code tries to
+    allocate it (and aborts) and the model would build the zero digits — not a documented panic, never generated;
+    answered `unsupported` so that the shrinker of tools/check.py cannot wander into it -/
+def unrunnable (f : Form) (args : List Arg) : Bool :=
+  match args with
+  | [l, .s _ s] => f.op = 9 && argInt l != 0 && decide (4294967296 ≤ s / 64) && decide (s / 64 < usizeLim)
+  | _ => false
 
 def handle (op : String) (args : List String) : Option (String × String) :=
   match op, args with
@@ -287,6 +308,7 @@ def handle (op : String) (args : List String) : Option (String × String) :=
     let n ← parseNat id
     let f := decode n
     let as ← parseArgs f 0 rest
+    if unrunnable f as then none
     let m ← model f as
     let o ← oracle f as
     pure (showOut m, showOut o)
